@@ -20,9 +20,10 @@
 //! `Timeout` only from a timed park and never before the requested duration (exact lower bound, no upper bounds);
 //! `Canceled` never (nobody cancels here).
 //!
-//! Time-outs do fire: some unparkers sit a round out; if then nothing happens for a long time (a lost time-out, the
-//! known defect F6, or a slow machine) `main` unparks as a rescuer - a bounded number of times, so that a real
-//! lost wake-up still ends in the watchdog.
+//! Time-outs do fire: the unparkers sit some rounds out. `main` is a rescuer for UNTIMED parks only (bounded, after
+//! 80 ms without progress). A timed park must be ended by its time-out: on a tree with the F6 fix (`f6_fixed()`, header
+//! `f6fix=1`) and always in family `park_f6` a lost time-out is a hang report; on a tree without the fix the families of
+//! the check still rescue timed parks (known defect F6, pending_fixes/README-C02.md) so that the check stays usable.
 use super::{spawn_actor_thread, LiveBuilt};
 use crate::rt::{call, ret, Rng};
 use may::coroutine;
@@ -126,9 +127,23 @@ mod crash {
     }
 }
 
+/// Does the tree under test contain the F6 fix (pending_fixes/F6.patch: `Park::subscribe` re-checks the time after it
+/// has published the coroutine)? Derived from the source that was compiled in; goes into the scenario header (`f6fix=`)
+/// so that the replay uses the matching variant of the model, and decides whether a timed park may be rescued.
+pub fn f6_fixed() -> bool {
+    let repo = std::env::var("VERIF_REPO").unwrap_or_else(|_| "/repo".into());
+    match std::fs::read_to_string(format!("{repo}/src/park.rs")) {
+        Ok(src) => match src.find("fn subscribe") {
+            Some(i) => src[i..].contains("now() >= deadline"),
+            None => false,
+        },
+        Err(_) => false,
+    }
+}
+
 /// how one park call is raced:
 ///  d = 0            untimed, the unparkers are active
-///  (d, true)        "time-out wins": short time-out, the unparkers sit this call out (the rescuer covers F6)
+///  (d, true)        "time-out wins": short time-out, the unparkers sit this call out
 ///  (d, false)       "unpark wins": long time-out, the unparkers are active
 ///  thorough tier only: short time-out AND active unparkers (timer and unparker race for the `take`; this also
 ///  races the non-atomic `Node.refs` of the timer entry - the known mpsc_list_v1 observation - which can corrupt
@@ -177,6 +192,10 @@ struct Shared {
     progress: AtomicUsize,
     /// the unparkers sit the park call in progress out
     sit_out: AtomicBool,
+    /// the park call in progress has a time-out
+    timed_now: AtomicBool,
+    /// a timed park is never rescued by `main` (tree with the F6 fix, or family `park_f6`): a lost time-out is a hang
+    no_timed_rescue: AtomicBool,
     done: AtomicBool,
     /// the blocker of the round in progress (taken away by the parker before it drops its own reference)
     cur: Mutex<Option<(usize, Arc<Blocker>)>>,
@@ -188,6 +207,8 @@ fn shared() -> Arc<Shared> {
     Arc::new(Shared {
         progress: AtomicUsize::new(0),
         sit_out: AtomicBool::new(false),
+        timed_now: AtomicBool::new(false),
+        no_timed_rescue: AtomicBool::new(false),
         done: AtomicBool::new(false),
         cur: Mutex::new(None),
         old: Mutex::new(vec![]),
@@ -317,8 +338,11 @@ fn rescue(sh: &Shared, total: usize, unpark: &dyn Fn(), tick: &mut dyn FnMut()) 
             last = p;
             since = Instant::now();
         } else if since.elapsed() > Duration::from_millis(80) && budget > 0 {
-            budget -= 1;
             since = Instant::now();
+            if sh.timed_now.load(Ordering::SeqCst) && sh.no_timed_rescue.load(Ordering::SeqCst) {
+                continue; // its time-out must end it
+            }
+            budget -= 1;
             unpark();
         } else if budget == 0 {
             return None; // the join below blocks; the watchdog decides
@@ -344,7 +368,23 @@ fn settle(max_ms: u64) {
 // ------------------------------------------------------------------------------------------------ family park
 
 pub fn build(rng: &mut Rng, tier: u32) -> LiveBuilt {
-    build_park(rng, tier, false)
+    build_park(rng, tier, Kind::Park)
+}
+
+/// F6 scenarios: every round is a short timed park (1-3 ms) that nobody unparks - the unparkers sit out, `main` never
+/// rescues -, so the only way out is the time-out. The perturbation (0.5-2 ms sleeps before the hooked
+/// `wait_kernel.store` / `wait_co.opt.store` of the kernel tail) stalls the tail between arming the timer and publishing
+/// the coroutine. On a tree without pending_fixes/F6.patch the time-out is then lost and the run ends as a hang report;
+/// with it the tail's re-check of the time produces the Timeout.
+pub fn build_f6(rng: &mut Rng, tier: u32) -> LiveBuilt {
+    build_park(rng, tier, Kind::F6)
+}
+
+#[derive(Clone, Copy, PartialEq)]
+enum Kind {
+    Park,
+    Sleepers,
+    F6,
 }
 
 /// Reproducer only (not part of the C02 check, no model): the `park` family with LONG-LIVED coroutine unparkers that
@@ -352,20 +392,29 @@ pub fn build(rng: &mut Rng, tier: u32) -> LiveBuilt {
 /// parker's short time-outs; this variant corrupts the heap of the process now and then (a freed timer-list `Node`
 /// is written after free; see pending_fixes/README-C02.md, "timer-node use-after-free").
 pub fn build_sleepers(rng: &mut Rng, tier: u32) -> LiveBuilt {
-    build_park(rng, tier.max(1), true)
+    build_park(rng, tier.max(1), Kind::Sleepers)
 }
 
-fn build_park(rng: &mut Rng, tier: u32, sleepers: bool) -> LiveBuilt {
+fn build_park(rng: &mut Rng, tier: u32, kind: Kind) -> LiveBuilt {
+    let sleepers = kind == Kind::Sleepers;
+    let fam = match kind {
+        Kind::Park => "park",
+        Kind::Sleepers => "park_sleepers",
+        Kind::F6 => "park_f6",
+    };
+    let fixed = f6_fixed();
     // the parker's name is unique in the process: kernel tails of the previous scenario's parker may still be at work
     // when this one starts (they are recognised as foreign by the replay)
-    let pname = format!("c1.{}", crash::arm(if sleepers { "park_sleepers" } else { "park" }));
+    let pname = format!("c1.{}", crash::arm(fam));
     let rounds = 1 + rng.below(if tier > 0 { 8 } else { 4 }) as usize;
-    let durs: Vec<(u64, bool)> = (0..rounds).map(|_| gen_park(rng, tier, true)).collect();
+    let durs: Vec<(u64, bool)> = (0..rounds)
+        .map(|_| if kind == Kind::F6 { (1 + rng.below(3), true) } else { gen_park(rng, tier, true) })
+        .collect();
     let ups = gen_unparkers(rng, tier);
     let max_ms = durs.iter().map(|d| d.0).max().unwrap_or(0);
     let header = format!(
-        "family={} rounds={rounds} pname=c:{pname} unparkers={}",
-        if sleepers { "park_sleepers" } else { "park" },
+        "family={fam} rounds={rounds} pname=c:{pname} f6fix={} unparkers={}",
+        fixed as u8,
         names(&ups)
     );
     LiveBuilt {
@@ -375,6 +424,7 @@ fn build_park(rng: &mut Rng, tier: u32, sleepers: bool) -> LiveBuilt {
         run: Box::new(move || {
             let mut fails = vec![];
             let sh = shared();
+            sh.no_timed_rescue.store(fixed || kind == Kind::F6, Ordering::SeqCst);
             let (s2, d2) = (sh.clone(), durs.clone());
             let h = unsafe {
                 coroutine::Builder::new()
@@ -382,6 +432,7 @@ fn build_park(rng: &mut Rng, tier: u32, sleepers: bool) -> LiveBuilt {
                     .spawn(move || {
                         for (d, sit) in d2 {
                             s2.sit_out.store(sit, Ordering::SeqCst);
+                            s2.timed_now.store(d != 0, Ordering::SeqCst);
                             call("co.park", d, 0);
                             if d == 0 {
                                 coroutine::park();
@@ -490,6 +541,7 @@ fn res_code(r: &Result<(), ParkError>) -> u64 {
 
 pub fn build_blocker(rng: &mut Rng, tier: u32) -> LiveBuilt {
     let pn = crash::arm("blocker");
+    let fixed = f6_fixed();
     let rounds = 1 + rng.below(if tier > 0 { 6 } else { 3 }) as usize;
     let in_co = rng.chance(650);
     // per round: 1-2 parks on the fresh blocker; the first may be untimed, later ones are timed
@@ -504,9 +556,10 @@ pub fn build_blocker(rng: &mut Rng, tier: u32) -> LiveBuilt {
     let ups = gen_unparkers(rng, tier);
     let pname = if in_co { format!("c1.{pn}") } else { format!("p1.{pn}") };
     let header = format!(
-        "family=blocker rounds={rounds} parker={} pname={}{pname} unparkers={}",
+        "family=blocker rounds={rounds} parker={} pname={}{pname} f6fix={} unparkers={}",
         if in_co { "co" } else { "thr" },
         if in_co { "c:" } else { "" },
+        fixed as u8,
         names(&ups)
     );
     LiveBuilt {
@@ -515,6 +568,8 @@ pub fn build_blocker(rng: &mut Rng, tier: u32) -> LiveBuilt {
         hang_ms: 4000,
         run: Box::new(move || {
             let sh = shared();
+            // a thread-context blocker wraps a ThreadPark (condvar time-out): never rescued when timed either
+            sh.no_timed_rescue.store(fixed || !in_co, Ordering::SeqCst);
             let fails = Arc::new(Mutex::new(Vec::<String>::new()));
             let (s2, f2) = (sh.clone(), fails.clone());
             let parker = move || {
@@ -527,6 +582,7 @@ pub fn build_blocker(rng: &mut Rng, tier: u32) -> LiveBuilt {
                     *s2.cur.lock().unwrap() = Some((i, b.clone()));
                     for (k, &(d, sit)) in parks.iter().enumerate() {
                         s2.sit_out.store(sit, Ordering::SeqCst);
+                        s2.timed_now.store(d != 0, Ordering::SeqCst);
                         let dur = if d == 0 { None } else { Some(Duration::from_millis(d)) };
                         let t0 = Instant::now();
                         call("blk.park", i as u64, d);
